@@ -644,7 +644,14 @@ func (p *parser) parseCallExpression(function ast.Expression) ast.Expression {
 		Function:  function,
 	}
 
-	ss := strings.Split(function.String(), ".")
+	var ss []string
+	switch function.(type) {
+	case *ast.CallExpression, *ast.FunctionLiteral:
+		// the result of a call, or a literal, is being called: a dot in its
+		// text (f(1.5)(2), fn(x) { return x + 0.5 }(1)) does not separate a path
+	default:
+		ss = strings.Split(function.String(), ".")
+	}
 
 	if len(ss) > 1 {
 		exp.Callee = &ast.Identifier{
